@@ -115,8 +115,10 @@ Section Style.
   Definition decl_allowed (sps : amap (list (style_policy M))) (prop val : bytes) : bool :=
     let tprop := fold_left (fun acc pre => trim_prefix acc pre) style_prefixes (to_lower prop) in
     let tval := remove_unicode (to_lower val) in
-    (match lookup tprop sps with Some spl => existsb (style_accepts tval) spl | None => false end) ||
-    (match lookup tprop (globalStyles p) with Some spl => existsb (style_accepts tval) spl | None => false end).
+    (* an undecodable escape empties the value: the declaration is dropped (fix F16) *)
+    negb ((match tval with [] => true | _ => false end) && negb (match val with [] => true | _ => false end)) &&
+    ((match lookup tprop sps with Some spl => existsb (style_accepts tval) spl | None => false end) ||
+     (match lookup tprop (globalStyles p) with Some spl => existsb (style_accepts tval) spl | None => false end)).
 
   (* returns the new value of the style attribute ("" = drop it) *)
   Definition sanitize_styles (elem : bytes) (val : bytes) : bytes :=
